@@ -209,6 +209,19 @@ func (c13) Build(tier string, seed uint64) []any {
 			cs = append(cs, &c13Case{Gen: "fibcat", Dir: "B", W: 110, H: 75, C: 1, P: p, Sel: sel, Class: "fibcat", CSeed: r.U64(), Td: []int{r.Intn(4)}, Table: "optimal", IDs: "std", Extra: "none"})
 		}
 	}
+	// pixel counts around 2^16 with moderate dimensions, both directions
+	for j, g := range areaSizes(th, seed) {
+		for i, sel := range []int{1, 5, 7, 8} {
+			if !th && (j+i+int(seed))%2 == 0 {
+				continue
+			}
+			r := gen.Sub(seed, "C13", "area", j*10+i)
+			p := gen.Pick(r, 8, 12, 16)
+			cl := gen.Pick(r, "noise", "smooth", "runs")
+			cs = append(cs, &c13Case{Gen: "area", Dir: "A", W: g[0], H: g[1], C: 1, P: p, Sel: sel, Class: cl, CSeed: r.U64()})
+			cs = append(cs, &c13Case{Gen: "area", Dir: "B", W: g[0], H: g[1], C: 1, P: p, Sel: sel, Class: cl, CSeed: r.U64(), Td: []int{r.Intn(4)}, Table: "optimal", IDs: "std", Extra: "none"})
+		}
+	}
 	return cs
 }
 
